@@ -78,6 +78,7 @@ class Interp:
     def reset_shadows(self):
         """called at the start of every path"""
         self._shadows = {}
+        self._depth = 0
 
     def subst(self, v):
         if self._subst:
@@ -153,7 +154,19 @@ class Interp:
         memo.append((key, v))
         return v
 
+    RECURSION_LIMIT = 950  # CPython's default recursion limit is 1000 frames; a caller of the library typically sits a few dozen frames deep
+
     def run_function(self, fn, args, kwargs):
+        d = self.__dict__.get("_depth", 0)
+        if d >= self.RECURSION_LIMIT:
+            raise RecursionError("maximum recursion depth exceeded (interpreted call depth)")
+        self._depth = d + 1
+        try:
+            return self._run_function(fn, args, kwargs)
+        finally:
+            self._depth = d
+
+    def _run_function(self, fn, args, kwargs):
         node = self.fn_ast(fn)
         sig = inspect.signature(fn)
         ba = sig.bind(*args, **kwargs)
